@@ -25,7 +25,7 @@ SUP = '⁰¹²³⁴⁵⁶⁷⁸⁹'
 WITNESS_FIXED = [
     'i^-1', '(2i)^-2', '(-3i)^-5', 'i^-(2^70)', '(2i)^(2^70)', '5¹²³⁴⁵⁶⁷⁸⁹⁰¹²³⁴⁵⁶⁷⁸⁹⁰¹', '10⁰⁰⁰⁰⁰⁰⁰⁰⁰⁰⁰⁰⁰⁰⁰⁰⁰⁰⁰⁰⁰⁰', '2⁰⁰⁰⁰⁰⁰⁰⁰⁰⁰⁰⁰⁰⁰⁰⁰⁰⁰⁰⁰⁰⁰⁰¹⁰',
     '@1000-01-01 - 1000 years', '@1000-01-01 - 364878 days', '(@1000-01-01 - 2000 years) - 1 day', '@2147483647-12-31 + 1 day',
-    '@2147483647-12-31 + 400 days', '@2020-01-01 - 1537228672809129302 years', '@1000-01-01 - 2147483647 years',
+    '@2147483647-12-31 + 400 days', '@2020-01-01 - 1537228672809129302 years',
 ]
 
 def mutate(r, s):
@@ -54,13 +54,46 @@ def mutate(r, s):
 def soup(r, n):
     return ''.join(r.choice(corpus.TOKENS) + r.choice(['', ' ', ' ', '']) for _ in range(n))
 
+CUSTOM_TOKENS = ['fortnight', 'fortnights', 'zorg', 'zorgs', 'kilozorg', 'kilozorgs', 'qq', 'kqq', 'mqq', 'mega', 'megameter', 'megazorg', 'myalias', 'myaliases',
+                 'bad', 'bads', 'dozen', 'dozens', 'dozenmeter', 'dozenmeters', 'dozensgram', 'dozenbyte', 'dozenzorg', 'blip', 'kblips', 'nuv', 'millinuvs', 'al', 'als',
+                 'é', 'kiloé', 'kiloés', 'selfref', '2 selfrefs', 'megadozen', 'dozenmega', 'dozendozen']
+
+def extremes(r):
+    """every syntactic position that holds a number, filled with digit strings of
+    extreme length / value (overflow of fixed-width accumulators is the classic
+    crash that only checked builds catch)"""
+    out = []
+    digs = []
+    for n in (1, 2, 3, 5, 8, 9, 10, 11, 16, 17, 19, 20, 21, 22, 32, 40):
+        for d in ('1', '9', 'f', '0', '7'):
+            digs.append(d * n)
+            digs.append('1' + '0' * (n - 1))
+    # lexer-level / immediately rejected positions: any length is cheap
+    cheap = ['"\\u{%s}"', "'\\u{%s}'", '"\\x%s"', '%s#1', '%s#z', '0x%s', '0b%s', '0o%s', '@%s-01-01', '@2000-%s-01', '@2000-01-%s',
+             '10 to base %s', '%s to char', 'codepoint "a" + %s', '1.%s', '%s to words', '%s to roman',
+             '%s kg to g', '%s mod 7', '7 mod %s', '%s°', "%s'", '0.%s(%s)', '1.(%s)']
+    # positions that start a computation proportional to the VALUE: only tiny or
+    # beyond-machine-range values (mid-range ones simply run for ever: C07)
+    heavy = ['%s nCr 2', '1 to %s dp', '1/3 to %s sf', '1e%s', '1e-%s', 'd%s', '%sd6', '2d%s', '1 << %s', '2^%s', '2^-%s', '%s!', '5 nPr %s', 'fib %s', '@2000-01-01 + %s days',
+             '@2000-01-01 - %s months', '@2000-01-01 - %s years', '1 m^%s', '1 m^-%s', 'roll(d%s)', '1e%s%%', 'sqrt %s', '%s^(1/%s)']
+    for p_ in cheap:
+        for d in r.sample(digs, 10):
+            hexok = ('u{' in p_ or '\\x' in p_ or '0x' in p_ or '#' in p_)
+            d2 = d if hexok else d.replace('f', '8')
+            out.append(('extreme', p_ % ((d2,) * p_.count('%s'))))
+    for p_ in heavy:
+        for d in r.sample([x for x in digs if len(x) <= 2 or len(x) >= 21], 6):
+            d2 = d.replace('f', '8')
+            out.append(('extreme-heavy', p_ % ((d2,) * p_.count('%s'))))
+    return out
+
 def ramps():
     """nesting ramps, bounded below the listed stack-exhaustion class"""
     out = []
     for d in (5, 30, 120, 300):
         out += ['(' * d + '1' + ')' * d, '(' * d + '1', '-' * d + '1', '1' + '!' * min(d, 3), '2' + '^1' * d, '1' + '+1' * d, '1' + '*2' * d,
                 '\\x.' * d + '1', 'sin ' * min(d, 60) + '1', '1;' * d + '1', '[' * d, '{' * d, '"' * d, "'" * d, '#' * d, '@' * d, '`' * d,
-                'x:' * min(d, 100) + '1', '1 to ' * min(d, 50) + 'm', 'a=' * min(d, 200) + '1', '2' + '²' * min(d, 6), '1' + ' m' * d, '0x' + 'f' * d,
+                'x:' * min(d, 100) + '1', '1 to ' * min(d, 50) + 'm', 'a=' * min(d, 200) + '1', '2' + '²' * min(d, 3), '1' + ' m' * d, '0x' + 'f' * d,
                 '1.' + '0' * d + '1', '1e' + '9' * min(d, 4), '(' * d + ')' * d, '1 ' + '/2' * d, '3 mod ' * min(d, 100) + '2']
     return out
 
@@ -117,6 +150,10 @@ def check(c):
     texts += [('suite', t) for t in base]
     texts += [('witness', t) for t in WITNESS_FIXED]
     texts += [('ramp', t) for t in ramps()]
+    texts += extremes(r)
+    texts += [('custom', t) for t in CUSTOM_TOKENS]
+    for _ in range(300 if quick else 5000):
+        texts.append(('custom', ' '.join(r.choice(CUSTOM_TOKENS + corpus.TOKENS[:60]) for _ in range(r.choice([1, 2, 3, 4])))))
     for _ in range(n_mut):
         t = r.choice(base)
         for _ in range(r.choice([1, 1, 2, 3])):
@@ -133,22 +170,27 @@ def check(c):
     meta = []
     for k, t in texts:
         cfg = r.choice(CFGS) if k != 'suite' else [0, 0, 0, 1, 0]
+        if k == 'custom':
+            cfg = cfg[:4] + [1]
         lines.append(sx([Sym('eval'), cfg, cps(t)])); meta.append(('eval', cfg, k, t))
     # previews / prefixes / completion / inline on a sample
     suite_part = [x for x in texts if x[0] == 'suite']
     if quick:
         suite_part = r.sample(suite_part, min(350, len(suite_part)))
-    sample = suite_part + [x for x in texts if x[0] == 'witness'] + [x for x in texts if x[0] in ('mutant', 'soup', 'ramp')][: (600 if quick else 8000)]
+    sample = suite_part + [x for x in texts if x[0] == 'witness'] + [x for x in texts if x[0] in ('mutant', 'soup', 'ramp', 'extreme', 'extreme-heavy', 'custom')][: (900 if quick else 12000)]
     for k, t in sample:
         cfg = r.choice(CFGS)
-        if len(t) <= 120:
+        if len(t) <= 120 and k != 'extreme-heavy' and sum(t.count(ch) for ch in SUP) <= 3:
             lines.append(sx([Sym('prefixes'), cfg, cps(t)])); meta.append(('prefixes', cfg, k, t))
         else:
             lines.append(sx([Sym('preview'), cfg, cps(t)])); meta.append(('preview', cfg, k, t))
     for k, t in sample[:: 3]:
         lines.append(sx([Sym('complete'), cps(t[:60])])); meta.append(('complete', None, k, t[:60]))
         doc = 'a [[' + t + ']] b `[[' + t + ']]` [[' + t
-        lines.append(sx([Sym('inline'), r.choice(CFGS), cps(doc)])); meta.append(('inline', None, k, doc))
+        icfg = r.choice(CFGS)
+        if k == 'custom':
+            icfg = icfg[:4] + [1]
+        lines.append(sx([Sym('inline'), icfg, cps(doc)])); meta.append(('inline', icfg, k, doc))
     for bs in ['\\', 'x\\alpha', 'x\\Alpha', '\\alph', '\\alphaaaaaaaa', 'é\\pi', ' ', 'a ', 'kilo', 'é', '\\é', 'x \\', '\\\\', 'm\\pi k']:
         lines.append(sx([Sym('complete'), cps(bs)])); meta.append(('complete', None, 'witness', bs))
 
@@ -156,11 +198,12 @@ def check(c):
     import time as _t
     for prof in profiles:
         _t0 = _t.time()
-        use = range(len(lines)) if (prof == 'debug' or not quick) else [i for i in range(len(lines)) if meta[i][2] in ('witness', 'ramp', 'suite') or i % 4 == 0]
+        use = range(len(lines)) if (prof == 'debug' or not quick) else [i for i in range(len(lines)) if meta[i][2] in ('witness', 'ramp', 'suite', 'extreme', 'extreme-heavy', 'custom') or i % 6 == 0]
         use = list(use)
-        outs = c.impl('crash', [lines[i] for i in use], timeout=(15 if quick else 60), profile=prof, plain=True)
+        outs = c.impl('crash', [lines[i] for i in use], timeout=(8 if quick else 60), profile=prof, plain=True)
         crashed = [(i, o) for i, o in zip(use, outs) if is_crash(o)]
         hangs = sum(1 for o in outs if o.startswith('("hang")'))
+        c.extra.setdefault('hang_inputs', []).extend([meta[i][3][:60] for i, o in zip(use, outs) if o.startswith('("hang")')][:40])
         c.dist['hang-' + prof] = hangs
         c.dist['mem_exhaustion-' + prof] = sum(1 for o in outs if mem_exhaustion(o))
         c.extra['wall_probe_' + prof] = round(_t.time() - _t0, 1)
@@ -177,6 +220,8 @@ def check(c):
                 d = try_parse(dv)
                 is_deep = isinstance(d, list) and d and d[0] == 1
                 if o.startswith('("abort"') and 'stack-overflow' in o and is_deep and c.known_finding('stack-exhaustion-deep-input'):
+                    continue
+                if o.startswith('("abort"') and 'stack-overflow' in o and cfg and cfg[4] == 1 and 'selfref' in t and c.known_finding('stack-exhaustion-cyclic-custom-unit'):
                     continue
                 if o.startswith('("abort"') and 'stack-overflow' in o and looks_self_recursive([t]) and c.known_finding('stack-exhaustion-recursive-global'):
                     continue
